@@ -122,6 +122,10 @@ func (s *state) ProcessDescriptor(desc SegmentationDescriptor) ([]SegmentationDe
 	}
 	// remove all closed descriptors
 	s.open = s.open[0 : len(s.open)-len(closed)]
+	if s.inBlackout && s.blackoutIdx >= len(s.open) {
+		// the program breakaway itself was closed, so the blackout is over
+		s.inBlackout = false
+	}
 
 	// validation logic
 	switch desc.TypeID() {
@@ -203,6 +207,14 @@ func (s *state) Close(desc SegmentationDescriptor) ([]SegmentationDescriptor, er
 		d := s.open[i]
 		if desc.Equal(d) {
 			// found our descriptor at index i, remove it
+			if s.inBlackout {
+				// keep the breakaway bookkeeping in step with the list
+				if i == s.blackoutIdx {
+					s.inBlackout = false
+				} else if i < s.blackoutIdx {
+					s.blackoutIdx--
+				}
+			}
 			// Shift s.open left by one index.
 			copy(s.open[i:], s.open[i+1:])
 			// Delete last element
